@@ -29,7 +29,7 @@ type daemon struct {
 	auditPath string
 	outPath   string
 	cmd       *exec.Cmd
-	stderr    *bytes.Buffer
+	stderr    *capBuffer
 	done      chan struct{}
 	waitErr   error
 	exited    int32
@@ -38,6 +38,7 @@ type daemon struct {
 	// outFifo: the events output is a named pipe read by the harness (so that it
 	// can be made to fail later by closing the reading end)
 	outFifo  bool
+	pullOff  int64 // pullFile: bytes of the events file already copied into outData
 	outFd    int
 	outMu    sync.Mutex
 	outData  []byte
@@ -65,7 +66,7 @@ func startDaemon(o daemonOpts) (*daemon, error) {
 	if err != nil {
 		return nil, err
 	}
-	d := &daemon{dir: dir, done: make(chan struct{}), stderr: &bytes.Buffer{}}
+	d := &daemon{dir: dir, done: make(chan struct{}), stderr: &capBuffer{}}
 	d.sshdPath, d.auditPath, d.outPath = o.sshdPath, o.auditPath, o.outPath
 	if d.sshdPath == "" {
 		d.sshdPath = mkFifo(dir, "sshd-pipe")
@@ -88,6 +89,15 @@ func startDaemon(o daemonOpts) (*daemon, error) {
 				if n > 0 {
 					d.outMu.Lock()
 					d.outData = append(d.outData, buf[:n]...)
+					if len(d.outData) > 256<<20 { // keep the newer half; the line count stays right
+						half := int64(len(d.outData) / 2)
+						if d.lcOff < half {
+							d.lcLines += bytes.Count(d.outData[d.lcOff:half], []byte("\n"))
+							d.lcOff = half
+						}
+						d.outData = append([]byte{}, d.outData[half:]...)
+						d.lcOff -= half
+					}
 					d.outMu.Unlock()
 					continue
 				}
@@ -163,11 +173,7 @@ func (d *daemon) waitExit(watchdog time.Duration) (exited bool, dump string) {
 		_ = d.cmd.Process.Kill()
 		<-d.done
 	}
-	s := d.stderr.String()
-	if n0 < len(s) {
-		s = s[n0:]
-	}
-	return false, s
+	return false, d.stderr.Since(n0)
 }
 
 func (d *daemon) cleanup() {
@@ -255,6 +261,10 @@ func (d *daemon) outputRaw() []byte {
 		defer d.outMu.Unlock()
 		return append([]byte{}, d.outData...)
 	}
+	// only a regular file has content to read back (/dev/full would yield zeros for ever)
+	if st, err := os.Stat(d.outPath); err != nil || !st.Mode().IsRegular() {
+		return nil
+	}
 	b, _ := os.ReadFile(d.outPath)
 	return b
 }
@@ -283,6 +293,9 @@ func (d *daemon) outputLineCount() int {
 		d.lcOff = int64(len(d.outData))
 		return d.lcLines
 	}
+	if st, err := os.Stat(d.outPath); err != nil || !st.Mode().IsRegular() {
+		return d.lcLines
+	}
 	f, err := os.Open(d.outPath)
 	if err != nil {
 		return d.lcLines
@@ -306,14 +319,50 @@ func (d *daemon) outputLineCount() int {
 // waitForOutput polls the events file until pred holds for its content.
 func (d *daemon) waitForOutput(pred func(b []byte) bool, watchdog time.Duration) bool {
 	deadline := time.Now().Add(watchdog)
+	check := func() bool {
+		if !d.outFifo {
+			d.pullFile()
+		}
+		d.outMu.Lock()
+		defer d.outMu.Unlock()
+		return pred(d.outData)
+	}
 	for {
-		if pred(d.outputRaw()) {
+		if check() {
 			return true
 		}
 		if d.hasExited() || time.Now().After(deadline) {
-			return pred(d.outputRaw())
+			return check()
 		}
-		time.Sleep(2 * time.Millisecond)
+		time.Sleep(3 * time.Millisecond)
+	}
+}
+
+// pullFile appends what the events file has gained since the last call to
+// outData (polling must not re-read a file that may have grown to hundreds of
+// megabytes every few milliseconds). At most 128 MiB are kept.
+func (d *daemon) pullFile() {
+	if st, err := os.Stat(d.outPath); err != nil || !st.Mode().IsRegular() {
+		return
+	}
+	f, err := os.Open(d.outPath)
+	if err != nil {
+		return
+	}
+	defer f.Close()
+	d.outMu.Lock()
+	defer d.outMu.Unlock()
+	if _, err := f.Seek(d.pullOff, io.SeekStart); err != nil {
+		return
+	}
+	buf := make([]byte, 1<<20)
+	for len(d.outData) < 128<<20 {
+		n, err := f.Read(buf)
+		d.outData = append(d.outData, buf[:n]...)
+		d.pullOff += int64(n)
+		if err != nil || n == 0 {
+			return
+		}
 	}
 }
 
@@ -664,4 +713,52 @@ func earlierRunOutput(n int) []byte {
 		b.WriteByte('\n')
 	}
 	return b.Bytes()
+}
+
+// capBuffer collects a child's output without letting a chatty child eat the
+// harness's memory: beyond 64 MiB the oldest half is dropped (the goroutine
+// dump that matters comes last).
+type capBuffer struct {
+	mu      sync.Mutex
+	b       []byte
+	dropped int
+}
+
+func (c *capBuffer) Write(p []byte) (int, error) {
+	c.mu.Lock()
+	defer c.mu.Unlock()
+	c.b = append(c.b, p...)
+	if len(c.b) > 64<<20 {
+		cut := len(c.b) / 2
+		c.dropped += cut
+		c.b = append([]byte{}, c.b[cut:]...)
+	}
+	return len(p), nil
+}
+
+// Len is the number of bytes ever written.
+func (c *capBuffer) Len() int {
+	c.mu.Lock()
+	defer c.mu.Unlock()
+	return c.dropped + len(c.b)
+}
+
+func (c *capBuffer) String() string {
+	c.mu.Lock()
+	defer c.mu.Unlock()
+	return string(c.b)
+}
+
+// Since returns what was written after the first n0 bytes (as far as it is still held).
+func (c *capBuffer) Since(n0 int) string {
+	c.mu.Lock()
+	defer c.mu.Unlock()
+	start := n0 - c.dropped
+	if start < 0 {
+		start = 0
+	}
+	if start > len(c.b) {
+		start = len(c.b)
+	}
+	return string(c.b[start:])
 }
